@@ -10,5 +10,11 @@ MCSeedAll  == {"rand", "det"}                      \* ... thorough: also a deter
 MCNoObjs   == {}
 MCObjs     == {"o1"}
 MCObjSeed  == [o \in MCObjs |-> 1]                 \* the object is constructed with random_state = seed 1
+\* trace configuration: a second randomly initialised entry class ("alt": the same routine on the float32 version of
+\* the same arguments) and twelve seeds; also model checked at small depth (RngStreamsMC_quick3.cfg)
+MCEntries3 == {"rand", "alt", "det"}
+MCRandom3  == [e \in MCEntries3 |-> e # "det"]
+MCSeed3    == {"rand", "alt"}
+MCSeeds12  == 1..12
 GraphView  == S
 =============================================================================
